@@ -117,6 +117,21 @@ Theorem moved_timer_fires_exactly_once : forall n i pre k v d a,
 Proof. exact move_fires_once. Qed.
 Print Assumptions moved_timer_fires_exactly_once.
 
+(* SetTimer on a LIVE key (several clients of one wheel using the same key, or one client
+   re-using a key) replaces the pending timer: afterwards the key carries the new value and
+   is due floor(d/i) ticks after THIS call; the value stored before (for the cache cleaner:
+   the closure to retry, with its delay) is never delivered.  The callback that runs is the
+   wheel's one execute function; the per-timer payload is the value. *)
+Theorem set_timer_on_live_key_replaces : forall n i pre k v0 v d a,
+  1 <= n -> 1 <= i -> i <= d ->
+  pending (final (init n i) pre) k = Some v0 ->
+  forallb (fun o => negb (touches k o)) a = true ->
+  pending (final (init n i) (pre ++ [OSet k v d])) k = Some v /\
+  kfilter k (concat (run (final (init n i) (pre ++ [OSet k v d])) a)) =
+  (if d / i <=? ticks a then [(k, v)] else []).
+Proof. exact set_on_live_key. Qed.
+Print Assumptions set_timer_on_live_key_replaces.
+
 Theorem removed_timer_fires_zero_times : forall n i pre k a,
   1 <= n -> 1 <= i ->
   forallb (fun o => negb (sets k o)) a = true ->
